@@ -90,8 +90,8 @@ def gen_spec(rng, nsurf=None, allow=None, finite_object=None, mirrors=None, dece
         if s['material'] == 'mirror':
             sign = -sign
         s['thickness'] = sign * abs(s['thickness'])
-    if in_glass:
-        surfs[-1]['material'] = 'air'
+    if in_glass and rng.random() < 0.85:
+        surfs[-1]['material'] = 'air'      # (15 %: the image lies inside the last medium - cover slip / immersion)
     surfs[-1]['thickness'] = sign * rng.uniform(20.0, 80.0)
     spec = {
         'object_thickness': (rng.uniform(40.0, 400.0) if finite else INF),
@@ -250,7 +250,10 @@ def random_edits(optic, spec, rng, n=None, kinds=None):
         si = rng.randrange(1, ns + 1)
         s = optic.surface_group.surfaces[si]
         if k == 'index':
+            # (a medium that is followed by a mirror is left alone: set_index does not update the
+            #  reflected side of that medium - reported under C01, not a paraxial/aberration matter)
             cand = [i for i in range(1, ns + 1) if not optic.surface_group.surfaces[i].is_reflective
+                    and not optic.surface_group.surfaces[i + 1].is_reflective
                     and float(np.ravel(optic.surface_group.surfaces[i].material_post.n(0.55))[0]) > 1.01]
             if not cand:
                 continue
